@@ -791,3 +791,48 @@ def format_args(fn_or_node):
                     continue
             out.append((name, n["args"][0]))
     return out
+
+
+class Alias:
+    """Run a rule that belongs to another property under this property's name: the clause it decides is a necessary
+    condition of both.  Rule ids become `<prop>.via.<original id>`; keys follow."""
+
+    def __init__(self, c, prop):
+        self._c = c
+        self._prop = prop
+
+    def _rid(self, rid):
+        return f"{self._prop}.via.{rid}"
+
+    def rule(self, rid, desc):
+        self._c.rule(self._rid(rid), "(shared clause) " + desc)
+
+    def ok(self, rid, instance=None, n=1):
+        self._c.ok(self._rid(rid), instance, n)
+
+    def violation(self, rid, key, msg, where="", detail=None, instance=None):
+        self._c.violation(self._rid(rid), key, msg, where, detail, instance)
+
+    def floor(self, rid, found, required, what):
+        self._c.floor(self._rid(rid), found, required, what)
+
+    def sample(self, s):
+        pass
+
+    @property
+    def rules(self):
+        outer = self
+
+        class _Proxy:
+            def __getitem__(self, rid):
+                return outer._c.rules[outer._rid(rid)]
+
+            def __contains__(self, rid):
+                return outer._rid(rid) in outer._c.rules
+
+            def setdefault(self, rid, v):
+                return outer._c.rules.setdefault(outer._rid(rid), v)
+        return _Proxy()
+
+    def __getattr__(self, name):
+        return getattr(self._c, name)
